@@ -72,6 +72,8 @@ func (*verifEnv) setNow(t time.Time) {
 	verifSetClock(t.UnixNano())
 }
 func (*verifEnv) readCache() (string, bool) { return verifG.content, verifG.exists }
+func (*verifEnv) cacheAge(now time.Time) time.Duration { return now.Sub(verifG.mtime) }
+func (*verifEnv) stampCache(now time.Time)             { verifG.mtime = now }
 func (*verifEnv) downloads() int            { return verifG.nDownload }
 func (*verifEnv) effectiveFault() int       { return verifG.effFault }
 func (*verifEnv) tempFilesLeft() int        { return verifG.leftTemp }
@@ -142,7 +144,7 @@ func verifChtimes(name string, atime, mtime time.Time) error {
 func verifTempDir(dir string) string { return dir }
 
 func verifTempFile(dir, path string) (*renameio.PendingFile, error) {
-	if verifChoice(2) == 1 {
+	if verifSymChoice(2) == 1 {
 		if verifG.effFault == verifFaultNone {
 			verifG.effFault = verifFaultConnError
 		}
@@ -156,7 +158,7 @@ func verifTempFile(dir, path string) (*renameio.PendingFile, error) {
 func verifReplace(t *renameio.PendingFile) error {
 	verifAssert("replace-only-a-pending-file", verifG.pending)
 	verifG.pending = false
-	if verifChoice(2) == 1 {
+	if verifSymChoice(2) == 1 {
 		// the rename failed: the destination is untouched, the temp file is gone
 		verifG.leftTemp--
 		if verifG.effFault == verifFaultNone {
@@ -207,7 +209,7 @@ func (b *verifBody) Close() error { return nil }
 func verifHTTPGet(c *agdhttp.Client, ctx context.Context, u *url.URL) (*http.Response, error) {
 	verifG.nDownload++
 	resp := &http.Response{StatusCode: http.StatusOK, Header: http.Header{}}
-	body := &verifBody{data: verifNew, failAt: -1, chunkLen: 7}
+	body := &verifBody{data: verifServed, failAt: -1, chunkLen: 7}
 	switch verifG.fault {
 	case verifFaultConnError:
 		return nil, errors.New("connection refused")
@@ -220,7 +222,7 @@ func verifHTTPGet(c *agdhttp.Client, ctx context.Context, u *url.URL) (*http.Res
 	case verifFaultEmptyBody:
 		body.data = ""
 	case verifFaultOversized:
-		body.data = verifNew + "||way.too.long.example^\n"
+		body.data = verifServed + "||way.too.long.example^\n||and.longer.still.example^\n"
 	case verifFaultTruncated:
 		body.failAt = 9
 	}
